@@ -168,6 +168,318 @@ def uexpr(text, env):
     return UExpr(tokenize(text), env).parse()
 
 # ---------------------------------------------------------------------------------------------
+# typed Rust expression subset -> Lean `Res Int` kernels over Model/Machine.lean
+# ---------------------------------------------------------------------------------------------
+TYPES = {'i8': (True, 8), 'i16': (True, 16), 'i32': (True, 32), 'i64': (True, 64),
+         'u8': (False, 8), 'u16': (False, 16), 'u32': (False, 32), 'u64': (False, 64), 'usize': (False, 64)}
+
+KTOK = re.compile(r'\s*(?:(' + NUM + r')|([A-Za-z_][A-Za-z0-9_]*(?:::[A-Za-z_][A-Za-z0-9_]*)*)|(>>|<<|[-+*/%^&|()!.,]))')
+
+def ktokenize(s):
+    pos = 0; toks = []; s = s.strip()
+    while pos < len(s):
+        m = KTOK.match(s, pos)
+        if not m:
+            raise ExtractError(f'kernel: cannot tokenize at {s[pos:pos+25]!r}')
+        if m.group(1): toks.append(('num', num(m.group(1))))
+        elif m.group(2): toks.append(('id', m.group(2)))
+        else: toks.append(('op', m.group(3)))
+        pos = m.end()
+    return toks
+
+class Kernel:
+    """translate one typed expression.  `env`: variable -> (lean_name, type_name); `generic`: the
+    concrete type substituted for a generic parameter `I`."""
+    def __init__(self, name, text, env, generic=None):
+        self.name = name; self.t = ktokenize(text); self.i = 0; self.env = env
+        self.generic = generic; self.binds = []; self.n = 0; self.text = ' '.join(text.split())
+    def peek(self): return self.t[self.i] if self.i < len(self.t) else (None, None)
+    def eat(self, kind=None, val=None):
+        k, v = self.peek()
+        if (kind and k != kind) or (val is not None and v != val):
+            raise ExtractError(f'kernel {self.name}: expected {val or kind}, got {v!r} in `{self.text}`')
+        self.i += 1; return v
+    def fresh(self):
+        self.n += 1; return f't{self.n}'
+    def bind(self, call):
+        v = self.fresh(); self.binds.append(f'  let {v} ← {call}'); return v
+    def site(self, what): return f'"{self.name}: {what}"'
+    def ty(self, t):
+        if t == 'I':
+            if not self.generic: raise ExtractError(f'kernel {self.name}: generic type without instance')
+            t = self.generic
+        if t not in TYPES: raise ExtractError(f'kernel {self.name}: unsupported type {t}')
+        return t
+    # expression levels
+    def parse(self):
+        e = self.p_or()
+        if self.i != len(self.t):
+            raise ExtractError(f'kernel {self.name}: trailing tokens in `{self.text}`')
+        return e
+    def lvl(self, sub, ops):
+        l = sub()
+        while self.peek()[0] == 'op' and self.peek()[1] in ops:
+            o = self.eat(); r = sub(); l = self.binop(o, l, r)
+        return l
+    def p_or(self): return self.lvl(self.p_xor, ['|'])
+    def p_xor(self): return self.lvl(self.p_and, ['^'])
+    def p_and(self): return self.lvl(self.p_shift, ['&'])
+    def p_shift(self): return self.lvl(self.p_add, ['<<', '>>'])
+    def p_add(self): return self.lvl(self.p_mul, ['+', '-'])
+    def p_mul(self): return self.lvl(self.p_cast, ['*', '/', '%'])
+    def p_cast(self):
+        e = self.p_unary()
+        while self.peek() == ('id', 'as'):
+            self.eat(); t = self.ty(self.eat('id')); e = self.cast(e, t)
+        return e
+    def cast(self, e, t):
+        s, w = TYPES[t]
+        a, at = e
+        if at is None: return (a, t)
+        return (f'({"castS" if s else "castU"} {w} {a})', t)
+    def p_unary(self):
+        k, v = self.peek()
+        if k == 'op' and v == '-':
+            self.eat(); a, at = self.p_unary()
+            if at is None: return (f'(-{a})', None)
+            s, w = TYPES[at]
+            if not s: raise ExtractError(f'kernel {self.name}: negation of unsigned')
+            return (self.bind(f'negS p {w} {self.site("negate")} {a}'), at)
+        if k == 'op' and v == '*':
+            self.eat(); return self.p_unary()            # dereference
+        return self.p_postfix()
+    def p_postfix(self):
+        e = self.p_atom()
+        while self.peek() == ('op', '.'):
+            self.eat(); m = self.eat('id'); self.eat('op', '('); self.eat('op', ')')
+            a, at = e
+            if m == 'abs':
+                s, w = TYPES[at]; e = (self.bind(f'absS p {w} {self.site(".abs()")} {a}'), at)
+            elif m == 'unsigned_abs':
+                s, w = TYPES[at]; e = (f'(if {a} < 0 then -{a} else {a})', 'u' + at[1:])
+            elif m == 'into':
+                e = (a, '?into')
+            else:
+                raise ExtractError(f'kernel {self.name}: method .{m}() not supported')
+        return e
+    def p_atom(self):
+        k, v = self.peek()
+        if k == 'num':
+            self.eat(); return (str(v), None)
+        if k == 'op' and v == '(':
+            self.eat(); e = self.p_or(); self.eat('op', ')'); return e
+        if k == 'id':
+            self.eat()
+            if '::' in v:
+                t, f = v.rsplit('::', 1)
+                if f in ('ONE',): return ('1', self.ty(t))
+                if f in ('ZERO',): return ('0', self.ty(t))
+                if f in ('from', 'from_u32', 'from_i64'):
+                    self.eat('op', '('); e = self.p_or(); self.eat('op', ')')
+                    return self.cast(e, self.ty(t))
+                raise ExtractError(f'kernel {self.name}: path {v} not supported')
+            if v not in self.env:
+                raise ExtractError(f'kernel {self.name}: unknown identifier {v} in `{self.text}`')
+            n, t = self.env[v]
+            return (n, self.ty(t))
+        raise ExtractError(f'kernel {self.name}: unexpected token {v!r} in `{self.text}`')
+    def binop(self, o, l, r):
+        (a, at), (b, bt) = l, r
+        if at == '?into': at = bt
+        if bt == '?into': bt = at
+        t = at if at is not None else bt
+        if t is None: raise ExtractError(f'kernel {self.name}: untyped operands of {o}')
+        if o in ('<<', '>>'):
+            t = at
+            if t is None: raise ExtractError(f'kernel {self.name}: untyped shift operand')
+        elif at is not None and bt is not None and at != bt:
+            raise ExtractError(f'kernel {self.name}: type mismatch {at} {o} {bt} in `{self.text}`')
+        s, w = TYPES[t]
+        X = 'S' if s else 'U'
+        if o == '+': return (self.bind(f'add{X} p {w} {self.site(a_(l)+" + "+a_(r))} {a} {b}'), t)
+        if o == '-': return (self.bind(f'sub{X} p {w} {self.site(a_(l)+" - "+a_(r))} {a} {b}'), t)
+        if o == '*': return (self.bind(f'mul{X} p {w} {self.site(a_(l)+" * "+a_(r))} {a} {b}'), t)
+        if o == '%':
+            if bt is not None and not b.lstrip('(-').isdigit(): raise ExtractError(f'kernel {self.name}: % by non-literal')
+            return ((f'(remS {a} {b})' if s else f'({a} % {b})'), t)
+        if o == '>>':
+            if bt is None: return (f'({a} / 2 ^ {b})', t)
+            return (self.bind(f'shrX p {w} {self.site(">>")} {a} {b}'), t)
+        if o == '<<':
+            if bt is None: return (f'(wrap{X} {w} ({a} * 2 ^ {b}))', t)
+            return (self.bind(f'shl{X} p {w} {self.site("<<")} {a} {b}'), t)
+        if o in ('|', '&', '^'):
+            if s: raise ExtractError(f'kernel {self.name}: bit operator on signed')
+            f = {'|': 'Nat.lor', '&': 'Nat.land', '^': 'Nat.xor'}[o]
+            return (f'(Int.ofNat ({f} ({a}).toNat ({b}).toNat))', t)
+        raise ExtractError(f'kernel {self.name}: operator {o} not supported')
+
+def a_(e):
+    return 'x'
+
+def kernel_def(name, text, params, env, result, generic=None, doc=None):
+    k = Kernel(name, text, env, generic)
+    val, vt = k.parse()
+    if vt is not None and vt != '?into' and result and k.ty(result) != vt:
+        raise ExtractError(f'kernel {name}: result type {vt}, expected {result}')
+    lines = [f'/-- `{doc or k.text}` -/',
+             f'def {name} (p : Profile) {" ".join("(" + x + " : Int)" for x in params)} : Res Int := do']
+    lines += k.binds
+    lines.append(f'  pure {val}')
+    return '\n'.join(lines) + '\n'
+
+def fn_body(src, name, item=None):
+    m = re.search(r'\bfn\s+' + name + r'\b', src)
+    if not m:
+        raise ExtractError(f'{item or name}: fn not found')
+    b = src.find('{', m.end())
+    # skip generic where-clauses: the body is the first `{` at depth 0 after the signature `)`
+    depth = 0; i = m.end()
+    while i < len(src):
+        c = src[i]
+        if c in '(<[': depth += 1
+        elif c in ')>]':
+            if not (c == '>' and src[i-1] == '-'): depth -= 1
+        elif c == '{' and depth <= 0:
+            b = i; break
+        i += 1
+    return src[b:brace_block(src, b)]
+
+def grab(body, pattern, item):
+    m = re.search(pattern, body, flags=re.S)
+    if not m:
+        raise ExtractError(f'{item}: expected shape not found: /{pattern}/')
+    return ' '.join(m.group(1).split())
+
+def gen_kernels(repo):
+    dec = strip_comments(open(os.path.join(repo, 'src/decode.rs')).read())
+    enc = strip_comments(open(os.path.join(repo, 'src/encode.rs')).read())
+    out = ['/- GENERATED by tools/translate.py from src/decode.rs and src/encode.rs — do not edit -/',
+           'import FlacModel.Model.Machine', 'namespace Flac.Gen', 'open Flac', '']
+    rs = fn_body(dec, 'read_subframes')
+    i32 = lambda *names: {n: (n.replace('_', ''), 'i32') for n in names}
+    # --- decoder: channel reconstruction (i32 paths)
+    e = grab(rs, r'\*side\s*=\s*(\*left\s*-\s*\*side)\s*;', 'read_subframes: left/side')
+    out.append(kernel_def('decLeftSide', e, ['left', 'side'], i32('left', 'side'), 'i32'))
+    e = grab(rs, r'\*side\s*\+=\s*(\*right)\s*;', 'read_subframes: side/right')
+    out.append(kernel_def('decSideRight', '*side + ' + e, ['side', 'right'], i32('side', 'right'), 'i32', doc='*side += *right'))
+    e = grab(rs, r'let\s+sum\s*=\s*(\*mid\s*\*\s*2\s*\+\s*side\.abs\(\)\s*%\s*2)\s*;', 'read_subframes: mid/side sum')
+    out.append(kernel_def('decMidSum', e, ['mid', 'side'], i32('mid', 'side'), 'i32'))
+    e = grab(rs, r'\*mid\s*=\s*(\(sum\s*\+\s*\*side\)\s*>>\s*1)\s*;', 'read_subframes: mid/side left')
+    out.append(kernel_def('decMidLeft', e, ['sum', 'side'], i32('sum', 'side'), 'i32'))
+    e = grab(rs, r'\*side\s*=\s*(\(sum\s*-\s*\*side\)\s*>>\s*1)\s*;', 'read_subframes: mid/side right')
+    out.append(kernel_def('decMidRight', e, ['sum', 'side'], i32('sum', 'side'), 'i32'))
+    # --- decoder: the 33-bit side paths (i64 arithmetic, results narrowed with `as i32`)
+    w = {'left': ('left', 'i32'), 'right': ('right', 'i32'), 'mid': ('mid', 'i32'), 'side_i64': ('side', 'i64'), 'side_64': ('side', 'i64'), 'sum': ('sum', 'i64')}
+    e = grab(rs, r'\*side\s*=\s*(\(\*left as i64\s*-\s*side_i64\) as i32)\s*;', 'read_subframes: wide left/side')
+    out.append(kernel_def('decLeftSideWide', e, ['left', 'side'], w, 'i32'))
+    e = grab(rs, r'\*side\s*=\s*(\(side_64\s*\+\s*\*right as i64\) as i32)\s*;', 'read_subframes: wide side/right')
+    out.append(kernel_def('decSideRightWide', e, ['side', 'right'], w, 'i32'))
+    e = grab(rs, r'let\s+sum\s*=\s*(\*mid as i64\s*\*\s*2\s*\+\s*\(side_i64\.abs\(\)\s*%\s*2\))\s*;', 'read_subframes: wide mid/side sum')
+    out.append(kernel_def('decMidSumWide', e, ['mid', 'side'], w, 'i64'))
+    e = grab(rs, r'\*mid\s*=\s*(\(\(sum\s*\+\s*side_i64\)\s*>>\s*1\) as i32)\s*;', 'read_subframes: wide mid')
+    out.append(kernel_def('decMidLeftWide', e, ['sum', 'side'], w, 'i32'))
+    e = grab(rs, r'\*side\s*=\s*(\(\(sum\s*-\s*side_i64\)\s*>>\s*1\) as i32)\s*;', 'read_subframes: wide side')
+    out.append(kernel_def('decMidRightWide', e, ['sum', 'side'], w, 'i32'))
+    # --- decoder: Rice un-folding
+    rb = fn_body(dec, 'read_block')
+    e = grab(rb, r'let\s+unsigned\s*=\s*(\(msb\s*<<\s*u32::from\(rice\)\)\s*\|\s*lsb)\s*;', 'read_block: unsigned')
+    out.append(kernel_def('decRiceJoin', e, ['msb', 'rice', 'lsb'], {'msb': ('msb', 'u32'), 'lsb': ('lsb', 'u32'), 'rice': ('rice', 'u32')}, 'u32'))
+    e_neg = grab(rb, r'if\s*\(unsigned\s*&\s*1\)\s*==\s*1\s*\{\s*(-\(I::from_u32\(unsigned\s*>>\s*1\)\)\s*-\s*I::ONE)\s*\}', 'read_block: odd branch')
+    e_pos = grab(rb, r'\}\s*else\s*\{\s*(I::from_u32\(unsigned\s*>>\s*1\))\s*\}', 'read_block: even branch')
+    for gname, g in (('32', 'i32'), ('64', 'i64')):
+        out.append(kernel_def('decRiceOdd' + gname, e_neg, ['unsigned'], {'unsigned': ('unsigned', 'u32')}, g, generic=g))
+        out.append(kernel_def('decRiceEven' + gname, e_pos, ['unsigned'], {'unsigned': ('unsigned', 'u32')}, g, generic=g))
+    # --- decoder: prediction step (shape-checked, emitted structurally)
+    pb = ' '.join(fn_body(dec, 'predict').split())
+    shape = ('residuals[0] += I::from_i64( predicted .iter() .rev() .zip(coefficients) .map(|(x, y)| (*x).into() * y) '
+             '.sum::<i64>() >> qlp_shift, );')
+    if shape.replace(' ', '') not in pb.replace(' ', ''):
+        raise ExtractError('predict: body no longer has the shape `residuals[0] += I::from_i64(Σ x·c >> qlp_shift)`')
+    if 'for split in coefficients.len()..channel.len()' not in pb or 'channel.split_at_mut(split)' not in pb:
+        raise ExtractError('predict: loop shape changed')
+    out.append('/-- `residuals[0] += I::from_i64(Σ x·c >> qlp_shift)` for `I = i32` (`from_i64` = `as i32`) -/\n'
+               'def decPredictStep32 (p : Profile) (residual sum shift : Int) : Res Int := do\n'
+               '  let t1 ← shrX p 64 "predict: >> qlp_shift" sum shift\n'
+               '  let t2 ← addS p 32 "predict: residuals[0] += prediction" residual (castS 32 t1)\n  pure t2\n')
+    out.append('/-- the same for `I = i64` (`from_i64` is the identity) -/\n'
+               'def decPredictStep64 (p : Profile) (residual sum shift : Int) : Res Int := do\n'
+               '  let t1 ← shrX p 64 "predict: >> qlp_shift" sum shift\n'
+               '  let t2 ← addS p 64 "predict: residuals[0] += prediction" residual t1\n  pure t2\n')
+    sb = fn_body(dec, 'read_subframe')
+    grab(sb, r'(channel\.iter_mut\(\)\.for_each\(\|i\|\s*\*i\s*<<=\s*header\.wasted_bps\))', 'read_subframe: wasted-bit shift')
+    out.append('/-- `*i <<= header.wasted_bps` -/\n'
+               'def decWastedShl32 (p : Profile) (i wasted : Int) : Res Int := shlS p 32 "read_subframe: <<= wasted_bps" i wasted\n'
+               'def decWastedShl64 (p : Profile) (i wasted : Int) : Res Int := shlS p 64 "read_subframe: <<= wasted_bps" i wasted\n')
+    # --- encoder
+    cb = fn_body(enc, 'correlate_channels')
+    e = grab(cb, r'\.map\(\|\(l,\s*r\)\|\s*(\(l\s*\+\s*r\)\s*>>\s*1)\)', 'correlate_channels: mid')
+    out.append(kernel_def('encMid', e, ['l', 'r'], {'l': ('l', 'i32'), 'r': ('r', 'i32')}, 'i32'))
+    e = grab(cb, r'\.map\(\|\(l,\s*r\)\|\s*(l\s*-\s*r)\)', 'correlate_channels: side')
+    out.append(kernel_def('encSide', e, ['l', 'r'], {'l': ('l', 'i32'), 'r': ('r', 'i32')}, 'i32'))
+    eb = fn_body(enc, 'encode_subframe')
+    e = grab(eb, r'channel\.iter\(\)\.map\(\|sample\|\s*(sample\s*>>\s*wasted_bps)\)', 'encode_subframe: wasted shift')
+    out.append(kernel_def('encWastedShr', e, ['sample', 'wasted_bps'], {'sample': ('sample', 'i32'), 'wasted_bps': ('wastedbps', 'u32')}, 'i32').replace('(sample : Int) (wasted_bps : Int)', '(sample : Int) (wastedbps : Int)'))
+    wb = fn_body(enc, 'write_residuals')
+    e = grab(wb, r'mask\(if s\.is_negative\(\)\s*\{\s*(\(\(-\*s as u32\s*-\s*1\)\s*<<\s*1\)\s*\+\s*1)\s*\}', 'write_residuals: fold negative')
+    out.append(kernel_def('encRiceFoldNeg', e, ['s'], {'s': ('s', 'i32')}, 'u32'))
+    e = grab(wb, r'\}\s*else\s*\{\s*(\(\*s as u32\)\s*<<\s*1)\s*\}', 'write_residuals: fold non-negative')
+    out.append(kernel_def('encRiceFoldPos', e, ['s'], {'s': ('s', 'i32')}, 'u32'))
+    rb2 = ' '.join(fn_body(enc, 'encode_residuals').split())
+    shape = ('current[0] .checked_sub( (previous .iter() .rev() .zip(&parameters.coefficients) .map(|(x, y)| *x as i64 * *y as i64) '
+             '.sum::<i64>() >> parameters.shift) as i32, ) .ok_or(ResidualOverflow)?')
+    if shape.replace(' ', '') not in rb2.replace(' ', ''):
+        raise ExtractError('encode_residuals: body no longer has the shape `current[0].checked_sub((Σ x·c >> shift) as i32)`')
+    out.append('/-- `current[0].checked_sub((Σ x·c >> parameters.shift) as i32)` — `none` = ResidualOverflow -/\n'
+               'def encResidualStep (sample sum shift : Int) : Option Int := checkedSubS 32 sample (castS 32 (sum / 2 ^ shift.toNat))\n')
+    fb = ' '.join(fn_body(enc, 'encode_fixed_subframe').split())
+    if 'for (n, p) in r.iter().zip(*prev_order) { match n.checked_sub(*p)' not in fb:
+        raise ExtractError('encode_fixed_subframe: difference loop changed shape')
+    out.append('/-- `n.checked_sub(*p)` of the FIXED difference loop -/\n'
+               'def encFixedDiff (n prev : Int) : Option Int := checkedSubS 32 n prev\n')
+    # --- the partition acceptance rule of best_partitions
+    m = re.search(r'\.collect::<Option<ArrayVec<_,\s*MAX_PARTITIONS>>>\(\)\s*\.filter\(\|p\|\s*(.*?)\)\?\s*;', wb, flags=re.S)
+    if not m:
+        raise ExtractError('best_partitions: acceptance filter not found')
+    rule = ' '.join(m.group(1).split())
+    if rule == 'p.len() == partition_count':
+        lean_rule = 'count == partitionCount'
+    elif rule == '!p.is_empty() && p.len().is_power_of_two()':
+        lean_rule = 'count != 0 && (2 ^ (Nat.log2 count) == count)'
+    else:
+        raise ExtractError(f'best_partitions: acceptance rule `{rule}` not in the translatable subset')
+    out.append(f'/-- `best_partitions` keeps a candidate iff `{rule}` (count = number of `rchunks` pieces) -/\n'
+               f'def encPartitionAccept (count partitionCount : Nat) : Bool := {lean_rule}\n')
+    if 'residuals .rchunks(block_size / partition_count) .rev()'.replace(' ', '') not in wb.replace(' ', '').replace('\n', ''):
+        raise ExtractError('best_partitions: slicing `residuals.rchunks(block_size / partition_count).rev()` changed')
+    if 'writer.write::<4, u32>(partitions.len().ilog2())?' not in ' '.join(wb.split()):
+        raise ExtractError('write_partitions: written partition order is no longer `partitions.len().ilog2()`')
+    m = re.search(r'const\s+MAX_PARTITIONS\s*:\s*usize\s*=\s*(' + NUM + r')\s*;', wb)
+    if not m:
+        raise ExtractError('write_residuals: MAX_PARTITIONS not found')
+    out.append(f'def encMaxPartitions : Nat := {num(m.group(1))}\n')
+    capped = 'min(MAX_PARTITIONS.ilog2())' in wb.replace(' ', '').replace('\n', '')
+    out.append(f'/-- candidate orders are capped at `ilog2(MAX_PARTITIONS)` -/\ndef encPartitionOrderCapped : Bool := {"true" if capped else "false"}\n')
+    # --- the verbatim fallback comparison of encode_subframe (C19)
+    ebn = ' '.join(eb.split())
+    if 'let verbatim_len = channel.len() as u32 * u32::from(bits_per_sample);' not in ebn:
+        raise ExtractError('encode_subframe: `verbatim_len = channel.len() as u32 * u32::from(bits_per_sample)` not found')
+    m = re.search(r'if best\.written\(\) (<|<=) verbatim_len \{ Ok\(best\) \} else \{ verbatim_output\.clear\(\); encode_verbatim_subframe\(', ebn)
+    if not m:
+        raise ExtractError('encode_subframe: fallback `if best.written() < verbatim_len { Ok(best) } else { verbatim }` changed shape')
+    out.append('/-- `verbatim_len = channel.len() as u32 * u32::from(bits_per_sample)` -/\ndef encVerbatimLen (n bps : Nat) : Nat := n * bps\n')
+    out.append(f'/-- `if best.written() {m.group(1)} verbatim_len {{ Ok(best) }} else {{ verbatim }}` -/\n'
+               f'def encKeepBest (written verbatimLen : Nat) : Bool := decide (written {m.group(1)} verbatimLen)\n')
+    m = re.search(r'\(Ok\(\(\)\), Ok\(\(\)\)\) => \[fixed_output, lpc_output\] \.into_iter\(\) \.(min_by_key|max_by_key)\(\|c\| c\.written\(\)\)', ebn)
+    if not m:
+        raise ExtractError('encode_subframe: candidate selection `[fixed_output, lpc_output].min_by_key(written)` changed shape')
+    out.append(f'/-- both candidates succeeded: `[fixed_output, lpc_output].into_iter().{m.group(1)}(|c| c.written())` -/\n'
+               f'def encPickCandidate (fixedBits lpcBits : Nat) : Nat := '
+               + ('if lpcBits < fixedBits then lpcBits else fixedBits' if m.group(1) == 'min_by_key' else 'if fixedBits ≤ lpcBits then lpcBits else fixedBits') + '\n')
+    out.append('end Flac.Gen')
+    return '\n'.join(out) + '\n'
+
+# ---------------------------------------------------------------------------------------------
 # extractors
 # ---------------------------------------------------------------------------------------------
 def gen_crc(repo):
@@ -488,6 +800,7 @@ def gen_tables(repo):
 GENERATORS = [
     ('Crc.lean', 'crc.rs CRC tables and update', gen_crc),
     ('Tables.lean', 'stream.rs header code tables', gen_tables),
+    ('Kernels.lean', 'decode.rs / encode.rs arithmetic kernels', gen_kernels),
 ]
 
 def main():
